@@ -21,8 +21,9 @@ LEVEL = "fault_enumeration"
 RUNS = {"quick": 2500, "thorough": 50000}
 CHUNK = {"quick": 20, "thorough": 100}
 PROBES = [f"residue_{i}" for i in range(16)] + ["custom_iv", "multi_frame_stream", "empty_plaintext", "keyflip_sweep",
-                                                "session_population", "verify_false_no_hmac"]
-RULE = ("seeded plans: 6-14 packets with plaintext length 0..80 (every residue mod 16 is drawn), random 16-byte AES/HMAC "
+                                                "session_population", "verify_false_no_hmac", "large_packet", "large_packet_multiple_of_64k"]
+RULE = ("seeded plans: 6-14 packets with plaintext length 0..80 (every residue mod 16 is drawn; 30% of the plans add one large "
+        "packet at a boundary length up to 256 KiB with a sampled fault set), random 16-byte AES/HMAC "
         "keys and IVs (default IV half of the time); per packet EVERY single-bit flip of ciphertext||signature, EVERY "
         "truncation of ciphertext and of signature, 8 random wrong HMAC keys, missing key (None, b''), and for one packet "
         "per plan every single-bit change of the HMAC key; 1-5 packets framed into client streams and single-packet "
@@ -37,8 +38,13 @@ REAL = ["c2.pad", "c2.encrypt_data/decrypt_data", "c2.encrypt_packet/decrypt_pac
         "c2.ClientC2Data/ServerC2Data.iter_encrypted_packets"]
 STUB = ["reference cipher (PyCryptodome AES-CBC + stdlib HMAC-SHA256)", "fault enumerator"]
 EXHAUSTIVE = {"quick": True, "thorough": True}
-EXHAUSTIVE_SCOPE = ("per packet the single-bit-flip and truncation fault space of ciphertext and signature is enumerated "
-                    "completely; the packet population (plaintexts, keys, IVs) is sampled")
+EXHAUSTIVE_SCOPE = ("per packet of up to 80 plaintext bytes the single-bit-flip and truncation fault space of ciphertext and "
+                    "signature is enumerated completely; the packet population (plaintexts, keys, IVs) is sampled, and the one "
+                    "large packet (255 bytes - 256 KiB, boundary lengths) that 30% of the plans carry gets a sampled fault set")
+
+
+BIG_LENGTHS = [255, 256, 257, 1023, 1024, 1025, 4095, 4096, 4097, 16383, 16384, 16385, 32768, 65519, 65520, 65535, 65536, 65537,
+               65552, 131071, 131072, 131073, 196608, 262144]
 
 
 def generate(rng, tier, index):
@@ -52,6 +58,16 @@ def generate(rng, tier, index):
                      "hmac": hx(bytes(rng.getrandbits(8) for _ in range(16))),
                      "iv": None if rng.random() < 0.5 else hx(bytes(rng.getrandbits(8) for _ in range(16))),
                      "wrong_keys": [hx(bytes(rng.getrandbits(8) for _ in range(16))) for _ in range(8)]})
+    if rng.random() < 0.3:
+        # one large packet per plan at a boundary length (powers of two and their neighbours, multiples of 4 KiB / 64 KiB):
+        # its plaintext is described by (seed, length), its fault space is sampled, not enumerated
+        n = rng.choice(BIG_LENGTHS + [4096 * rng.randint(1, 48), 65536 * rng.randint(1, 4) + rng.choice([-16, -1, 0, 0, 1, 15, 16])])
+        pkts.append({"pt_gen": {"seed": rng.getrandbits(24), "len": n}, "pt": None,
+                     "aes": hx(bytes(rng.getrandbits(8) for _ in range(16))),
+                     "hmac": hx(bytes(rng.getrandbits(8) for _ in range(16))),
+                     "iv": None if rng.random() < 0.5 else hx(bytes(rng.getrandbits(8) for _ in range(16))),
+                     "wrong_keys": [hx(bytes(rng.getrandbits(8) for _ in range(16))) for _ in range(2)],
+                     "sampled_bits": [rng.getrandbits(30) for _ in range(48)]})
     streams = []
     for _ in range(rng.randint(1, 4)):
         streams.append([rng.randrange(len(pkts)) for _ in range(rng.randint(1, 5))])
@@ -70,7 +86,16 @@ def execute(plan: dict) -> Result:
     res.cases = 0
     eps = []
     for pi, p in enumerate(plan["packets"]):
-        pt, aes, hm = unhx(p["pt"]), unhx(p["aes"]), unhx(p["hmac"])
+        big = p.get("pt_gen")
+        if big:
+            from dst.storage.builder import prng_bytes
+            pt = prng_bytes(big["seed"], big["len"])
+            res.probes["large_packet"] += 1
+            if big["len"] % 65536 == 0:
+                res.probes["large_packet_multiple_of_64k"] += 1
+        else:
+            pt = unhx(p["pt"])
+        aes, hm = unhx(p["aes"]), unhx(p["hmac"])
         iv = unhx(p["iv"]) if p["iv"] else None
         kw = {"iv": iv} if iv is not None else {}
         riv = iv if iv is not None else b"abcdefghijklmnop"
@@ -132,11 +157,18 @@ def execute(plan: dict) -> Result:
             except Exception as e:  # noqa: BLE001
                 if accepted is None:
                     accepted = (what, e)
-        for bit in range(len(blob) * 8):
+        if big:
+            # sampled: first/last ciphertext block, the whole signature, and the plan's random positions
+            bits = set(range(128)) | set(range((nct - 16) * 8, len(blob) * 8)) | {x % (len(blob) * 8) for x in p["sampled_bits"]}
+            cuts = sorted({1, 2, 15, 16, 17, 32, nct // 2, nct - 16, nct - 1, nct} & set(range(1, nct + 1)))
+        else:
+            bits = range(len(blob) * 8)
+            cuts = range(1, nct + 1)
+        for bit in sorted(bits) if big else bits:
             b = bytearray(blob)
             b[bit >> 3] ^= 1 << (bit & 7)
             attack(bytes(b[:nct]), bytes(b[nct:]), hm, f"bitflip {bit} ({'ciphertext' if bit >> 3 < nct else 'signature'})")
-        for cut in range(1, nct + 1):
+        for cut in cuts:
             attack(ep.ciphertext[:nct - cut], ep.signature, hm, f"ciphertext truncated by {cut}")
         for cut in range(1, 17):
             attack(ep.ciphertext, ep.signature[:16 - cut], hm, f"signature truncated by {cut}")
@@ -210,6 +242,9 @@ def candidates(plan: dict):
     for i in range(len(plan["streams"])):
         yield from core.shrink_list(plan, ["streams", i], min_len=1)
     for i in range(len(plan["packets"])):
-        yield from core.shrink_hex(plan, ["packets", i, "pt"])
+        if plan["packets"][i].get("pt") is not None:
+            yield from core.shrink_hex(plan, ["packets", i, "pt"])
+        else:
+            yield from core.shrink_int(plan, ["packets", i, "pt_gen", "len"])
         if plan["packets"][i]["iv"]:
             yield core._set(plan, ["packets", i, "iv"], None)
